@@ -1,6 +1,7 @@
 import Adlt.Lc.Pub
 import Adlt.Lc.Spec
 import Adlt.Lc.NoPanic
+import Adlt.Lc.IdPos
 /-! # C05 — lifecycle detection forwards every message once, in order, assigned
 
 Statements are about `Lcm.run` (model of `parse_lifecycles_buffered_from_stream`), for **every**
@@ -24,6 +25,23 @@ theorem C05_assigned_own_ecu (ms : List Msg) : Spec.C06 (observe (run ms)) = tru
   simp only [Spec.C06, observe, List.all_eq_true, List.mem_map, List.mem_reverse]
   rintro x ⟨o, ho, rfl⟩
   exact Lcm.C06_published_first ms o ho
+
+/-- every delivered message carries a non-zero lifecycle id (ids are handed out from 1; merging relabels to live ids) -/
+theorem C05_nonzero_id (ms : List Msg) : Spec.C05nonzero (observe (run ms)) = true := by
+  simp only [Spec.C05nonzero, observe, List.all_eq_true, List.mem_map, List.mem_reverse]
+  rintro x ⟨o, ho, rfl⟩
+  have := Lcm.C05_nonzero ms o ho
+  simp only [bne_iff_ne, ne_eq]
+  omega
+
+/-- the whole statement as the oracle evaluates it on the implementation: once, in order, unchanged but for the lifecycle
+    field, id non-zero and naming a published lifecycle of the message's own ECU -/
+theorem C05_full (ms : List Msg) : Spec.C05 ms (observe (run ms)) = true := by
+  have h1 := C05_once_in_order ms
+  have h2 := C05_assigned_own_ecu ms
+  have h3 := C05_nonzero_id ms
+  simp only [Spec.C05, Spec.C05order, Spec.C06, Spec.C05nonzero, Bool.and_eq_true, List.all_eq_true] at *
+  exact ⟨h1, fun x hx => ⟨h3 x hx, h2 x hx⟩⟩
 
 /-- the detector model never stops at an internal assertion, whatever the stream -/
 theorem C05_never_stops (ms : List Msg) : (run ms).panicked = false := run_not_panicked ms
